@@ -112,6 +112,68 @@ func oneshotMain() {
 
 var warmed bool
 
+// warmDoc touches every notation and rule kind once: any (as a body, as a type, as a rule),
+// regex, enum, or, allOf, JSON-RPC, macros, path / query / headers.
+const warmDoc = `JSIGHT 0.3
+INFO
+  Title "warm"
+  Version 1.0
+SERVER @s
+  BaseUrl "https://example.com"
+TAG @t
+ENUM @e
+  ["a", "b"]
+TYPE @anyT
+  {} // {type: "any"}
+TYPE @rx regex
+  /[a-z]{2}/
+TYPE @base
+  {"id": 1}
+TYPE @obj
+  { // {allOf: "@base"}
+    "a": "a", // {enum: @e}
+    "b": @anyT,
+    "c": @rx | @base,
+    "d": 1, // {or: ["integer", "string"]}
+    "e": [1, 2],
+    "f": null, // {type: "any"}
+    "g": "x" // {optional: true, nullable: true}
+  }
+MACRO @m
+(
+  404 any
+  500 empty
+)
+URL /w/{id}
+  Path
+    {"id": 1}
+  GET
+    Tags @t
+    Query "a=1"
+      {"a": 1}
+    200 @obj
+    201 any
+    202 regex
+      /ab+/
+    PASTE @m
+  POST
+    Request
+      Headers
+        {"X-A": "a"}
+      Body @obj
+    200
+      Headers
+        {"X-B": 1}
+      Body [@base]
+URL /rpc
+  Protocol json-rpc-2.0
+  Method m1
+    Params
+      {"p": @anyT}
+    Result
+      @obj
+`
+
 // warmUp brings the package-level lazily initialised state of the code under test (sync.Once
 // guarded tables) into its steady state, single-task, so that the sequence of scheduling
 // points of a run depends on the case only and not on what the process executed before: a
@@ -125,6 +187,22 @@ func warmUp() {
 		p := genValid(r.Fork())
 		must(MaterialiseAt("warm", p.Files))
 		if o := BuildPath("warm/" + p.Root); o.OK {
+			for _, op := range accessors {
+				call(o.japi, op)
+			}
+		}
+	}
+	// A fixed document on top of the generated ones: what the six random projects cover changes
+	// whenever the generator changes, and a package-level sync.Once that they happen to miss (the
+	// dependency's virtual node for "any") makes the first run that meets it two operations longer
+	// than the same run in another process - found by the determinism self-test.
+	for _, doc := range []string{warmDoc, richDoc} {
+		must(MaterialiseAt("warm", []GenFile{{Path: "root.jst", Data: []byte(doc)}, {Path: "inc.jst", Data: []byte("502 any\n")}, {Path: "inc2.jst", Data: []byte("TAG @t3\n")}}))
+		o := BuildPath("warm/root.jst")
+		if doc == warmDoc && !o.OK {
+			panic("the warm-up document is rejected: " + o.Text())
+		}
+		if o.OK {
 			for _, op := range accessors {
 				call(o.japi, op)
 			}
